@@ -30,7 +30,7 @@ fn plan_json(res : Result<NodePack, TopologicalSortError>) -> Value
 
 fn run_sort(rules : &Vec<(Vec<String>, Vec<String>)>, goal : &str) -> Value
 {
-    let rs : Vec<Rule> = rules.iter().enumerate().map(|(k, (t, s))| Rule::new(t.clone(), s.clone(), vec![format!("cmd{}", k)])).collect();
+    let rs : Vec<Rule> = rules.iter().map(|(t, s)| Rule::new(t.clone(), s.clone(), vec![format!("cmd {}", t.join(","))])).collect();
     let g = goal.to_string();
     let r = std::panic::catch_unwind(move || if g == "" { topological_sort_all(rs) } else { topological_sort(rs, &g) });
     match r { Ok(res) => plan_json(res), Err(_) => json!({"ok" : false, "kind" : "PANIC", "arg" : []}) }
@@ -140,6 +140,9 @@ pub fn sort_cases(n : usize, random : usize, seed : u64) -> Vec<Value>
             rules[k].1 = src;
         }
         let goal = match rng.below(6) { 0 | 1 => "".to_string(), 2 => "nosuch".to_string(), _ => { let t = &rules[rng.below(nr)].0; t[rng.below(t.len())].clone() } };
+        /* now and then a whole rule is given twice (two rules files that share a part): its targets are then targets of two rules */
+        if rng.chance(1, 8) { let c = rules[rng.below(nr)].clone(); let at = rng.below(rules.len() + 1); rules.insert(at, c); }
+        let nr = rules.len();
         let mut perm : Vec<usize> = (0..nr).collect();
         for k in (1..nr).rev() { let j = rng.below(k + 1); perm.swap(k, j); }
         out.push(sort_record(format!("r{}.{}", seed, r), &rules, &goal, Some(perm)));
